@@ -142,3 +142,27 @@ Proof.
   intros W H1 H2. pose proof (decode_encode_top f v1 bs W H1) as D1.
   pose proof (decode_encode_top f v2 bs W H2) as D2. congruence.
 Qed.
+
+(* RecordHeader2 through its API view (length, padding, securityEscape) *)
+Lemma rh2_roundtrip_top len pad esc :
+  (* what fits: encodes, decodes back to the same wire value, and parse() reports the same fields *)
+  (forall v, rh2_val len pad esc = Some v ->
+     (exists bs, encode fmt_RecordHeader2 v = Ok bs /\ decode fmt_RecordHeader2 bs = Ok (v, [])) /\
+     rh2_fields v = Some (len, pad, esc)) /\
+  (* what is refused: exactly a length that needs more bits than the header form has (15 bits in
+     the 2-byte form, 14 bits in the 3-byte form), or a padding that is not a byte *)
+  (rh2_val len pad esc = None <->
+     ~ (0 <= len /\ if rh2_short pad esc then len < 32768 else len < 16384 /\ 0 <= pad < 256)).
+Proof.
+  split.
+  - intros v H. split; [|apply (rh2_fields_val _ _ _ _ H)].
+    pose proof (rh2_val_wf _ _ _ _ H) as W. apply encode_ok_iff_wf_val in W. destruct W as [bs Hb].
+    exists bs. split; [exact Hb|]. apply (decode_encode_top _ _ _ wf_RecordHeader2 Hb).
+  - unfold rh2_val. destruct (rh2_short pad esc).
+    + destruct ((0 <=? len) && (len <? 32768)) eqn:E.
+      * split; [discriminate|]. intros N. exfalso. apply N. lia.
+      * split; [|reflexivity]. intros _ [A B]. lia.
+    + destruct ((0 <=? len) && (len <? 16384) && (0 <=? pad) && (pad <? 256)) eqn:E.
+      * split; [discriminate|]. intros N. exfalso. apply N. lia.
+      * split; [|reflexivity]. intros _ [A [B C]]. lia.
+Qed.
